@@ -166,6 +166,15 @@ add("C16", "gen", "exploration",
     "Trusts the Go toolchain; names passed to non-struct types and nil embedded pointers are not asserted.",
     "DESIGN.md section 3, C16")
 
+add("C17", "gen", "exploration",
+    "property-based testing (rapid): batches of generated type graphs through the real deepcopy generator, first-run output compiled and run by go test (mutate-the-copy oracle), second run compared byte for byte",
+    "Generated packages (package tag or per-type tags with untagged dependencies; nested by-value structs, embedded structs, defined scalar/map types, error/any/"
+    "same-package/foreign interface fields, generic structs and fields instantiating them, gengo:deepcopy:interfaces) are processed by the real generator; the first "
+    "run's output must compile with a harness-written test: nil copy is nil, the copy of a fully populated literal is DeepEqual, and after overwriting/appending/"
+    "inserting/deleting in every slice and map reachable through by-value nesting of the copy the original still equals an independently built snapshot; a second run must emit the same bytes.",
+    "Trusts the Go toolchain and reflect.DeepEqual; pointer/func/chan fields, containers of non-scalars, defined slice types and struct-typed generic arguments are outside the domain.",
+    "DESIGN.md section 3, C17")
+
 ALL = ["C%02d" % i for i in range(1, 21)]
 
 def main():
